@@ -1,0 +1,28 @@
+//go:build verif
+
+package operator
+
+import "slices"
+
+// Accessors for the verification harness of the barrier-alignment property (build tag verif only).
+
+// VerifSync returns after the event consumer has run everything queued before the call.
+func (o *Operator) VerifSync() {
+	done := make(chan struct{})
+	o.events <- func() { close(done) }
+	<-done
+}
+
+// VerifCheckpointState reports the in-progress checkpoint: its id and the senders whose barrier is missing.
+func (o *Operator) VerifCheckpointState() (id uint64, missing []string, inProgress bool) {
+	o.mu.RLock()
+	defer o.mu.RUnlock()
+	if o.checkpoint == nil {
+		return 0, nil, false
+	}
+	for sr := range o.checkpoint.srIDs {
+		missing = append(missing, sr)
+	}
+	slices.Sort(missing)
+	return o.checkpoint.checkpointID, missing, true
+}
